@@ -51,7 +51,7 @@ Lex == <<
     <<71, 69, 84, 32, 32, 47, 32, 72, 84, 84, 80, 47, 49, 46, 49, 13, 10>>,   \* 10 'GET  / HTTP/1.1\r\n' two SP: reject
     <<71, 69, 84, 32, 47, 32, 72, 84, 84, 80, 47, 49, 46, 49, 10>>,   \* 11 'GET / HTTP/1.1\n' bare LF: reject
     <<71, 69, 84, 32, 104, 116, 116, 112, 58, 47, 47, 97, 47, 32, 72, 84, 84, 80, 47, 49, 46, 49, 13, 10>>,   \* 12 'GET http://a/ HTTP/1.1\r\n' absolute-form
-    <<71, 69, 84, 32, 104, 116, 116, 112, 58, 47, 47, 97, 58, 98, 47, 32, 72, 84, 84, 80, 47, 49, 46, 49, 13, 10>>,   \* 13 'GET http://a:b/ HTTP/1.1\r\n' bad port (dev)
+    <<71, 69, 84, 32, 104, 116, 116, 112, 58, 47, 47, 97, 58, 98, 47, 32, 72, 84, 84, 80, 47, 49, 46, 49, 13, 10>>,   \* 13 'GET http://a:b/ HTTP/1.1\r\n' bad port: reject
     <<71, 69, 84, 32, 47, 32, 72, 84, 84, 80, 47, 50, 46, 48, 13, 10>>,   \* 14 'GET / HTTP/2.0\r\n' other version (alt)
     <<71, 64, 84, 32, 47, 32, 72, 84, 84, 80, 47, 49, 46, 49, 13, 10>>,   \* 15 'G@T / HTTP/1.1\r\n' method not a token: reject
     <<13, 10>>,   \* 16 '\r\n' empty line
